@@ -83,7 +83,7 @@ def main():
     thorough = rep.tier == "thorough"
     dist = collections.Counter()
     undocumented = [c for c in emitted if c not in cat]
-    known_undoc = {163, 332, 390, 580, 583, 584, 1142, 1880}
+    known_undoc = set()      # F8 (E163, E332, E390, E580, E583, E584, L1142, L1880) repaired: documented
     for c in undocumented:
         if c in known_undoc:
             rep.violation("undocumented:F8", {"codes": sorted(known_undoc)})
